@@ -3,6 +3,7 @@ pub mod adsr;
 pub mod c17;
 pub mod c20;
 pub mod glide;
+pub mod isolation;
 pub mod json;
 pub mod lfo;
 pub mod midi;
@@ -32,6 +33,17 @@ pub fn run_property(ctx: &Ctx, prop: &str) -> Result<Report, String> {
         rep.merge(r);
         rep.stages.push((name.to_string(), t0.elapsed().as_secs_f64(), ev));
     }
+    // instance isolation: two instances side by side behave as each does alone
+    if matches!(prop, "C01" | "C10" | "C13" | "C07" | "C04" | "C06" | "C18" | "C15" | "C16") {
+        let t0 = std::time::Instant::now();
+        let r = isolation::run(ctx, prop);
+        let ev = r.evaluations;
+        rep.merge(r);
+        rep.stages.push(("isolation.two_instances_side_by_side".to_string(), t0.elapsed().as_secs_f64(), ev));
+        if ctx.tier != report::Tier::Small {
+            rep.floor("isolation.pairs", 1000);
+        }
+    }
     Ok(rep)
 }
 
@@ -60,6 +72,7 @@ pub fn replay_property(prop: &str, text: &str, rep: &mut Report) -> Result<Optio
         return c20::replay(&t, rep);
     }
     match module.as_str() {
+        "isolation" => isolation::replay(&t, prop, rep),
         "twin-midi" => twins::midi_replay(&t, prop, rep),
         "twin-ribbon" => twins::ribbon_replay(&t, prop, rep),
         "twin-adsr" => twins::adsr_replay(&t, prop, rep),
